@@ -19,6 +19,7 @@ import conda_content_trust.signing as S
 import conda_content_trust.cli as CLI
 
 PKG = os.path.dirname(os.path.abspath(conda_content_trust.__file__))
+JSONPKG = os.path.dirname(os.path.abspath(json.__file__))
 SEED = bytes(range(1, 33))
 KEYHEX = SEED.hex()
 FPR = "f075dd2f6f4cb3bd76134bbb81b6ca16ef9cd589"
@@ -64,7 +65,8 @@ class Run:
         self.events = []
 
     def tracer(self, frame, event, arg):
-        if not frame.f_code.co_filename.startswith(PKG):
+        fn = frame.f_code.co_filename
+        if not (fn.startswith(PKG) or fn.startswith(JSONPKG)):
             return None
         return self.local
 
@@ -73,7 +75,7 @@ class Run:
             k = self.n
             self.n += 1
             if self.fault_at is None:
-                self.events.append("%s:%d" % (os.path.basename(frame.f_code.co_filename), frame.f_lineno))
+                self.events.append("%s:%d" % (("json/" if frame.f_code.co_filename.startswith(JSONPKG) else "") + os.path.basename(frame.f_code.co_filename), frame.f_lineno))
             if k == self.fault_at:
                 raise self.exc("injected at event %d" % k)
         return self.local
@@ -180,6 +182,19 @@ def scenario(name, make_files, call, quick, skeleton_name):
                                                       % (k, base.events[k], exc.__name__, len(orig), len(now)), "event": k, "where": base.events[k]})
                 if e is None:
                     res["violations"].append({"what": "injected fault at event %d was swallowed: the procedure reported success" % k, "event": k, "where": base.events[k]})
+        # computation that still runs after the output file was opened (serializer or signing code): every such point
+        # is a place where a failure leaves a partial file -- inject there as well
+        late = [k for k in range(base.first_out, base.n) if base.events[k].startswith("json/") or base.events[k].startswith("signing.py") or base.events[k].startswith("root_signing.py")]
+        for k in late[:: max(1, len(late) // 40)]:
+            make_files(d)
+            r = Run(target, fault_at=k, exc=Fault)
+            execute(lambda: call(d, target), r)
+            tested += 1
+            now = open(target, "rb").read()
+            if now != orig:
+                res["violations"].append({"what": "serialization/signing code is still running after the output file was opened: a fault at line event %d (%s) leaves a partial file (%d bytes, original %d)"
+                                                  % (k, base.events[k], len(now), len(orig)), "event": k, "where": base.events[k]})
+        res["late_computation_events"] = len(late)
         res["fault_points_tested"] = tested
         # faults after the output began are outside the claim; count them for the evidence
         res["events_in_output_phase"] = base.n - base.first_out
